@@ -45,16 +45,13 @@ def decRe (v : Int) : Bytes × Bool :=
   let p := ptrPayload v
   ((natToRev (p / 2) (p / 2)).reverse, p % 2 == 1)
 
-def fltToVm (f : Float) : Int := C.wrap (f.toBits.toNat : Int)
-def vmToFlt (v : Int) : Float := Float.ofBits (UInt64.ofNat (v % W64).toNat)
-
 /-- the VM word of a specification value -/
 def toVm : Val → Int
   | .undef => C.UNDEF
   | .int i => i
   | .bool b => C.b2i b
   | .str s => encSS s
-  | .flt f => fltToVm f
+  | .flt w => w                        -- a double is its 64-bit pattern
 
 /-! ### primitives of the generated opcodes -/
 
@@ -79,20 +76,26 @@ def readPrim (blocks : List (Nat × Bytes)) (sz : Nat) (signed be : Bool) (a : I
   | some bs => decodeRd sz signed be bs
   | none => C.UNDEF
 
-/-- primitives on doubles and sized strings, by the (normalised) C text the translator found in exec.c -/
+/-- the double primitives, by the (normalised) C text the translator found in exec.c: the SAME parameter operations the
+    specification uses (`Cond.FloatOps`) -/
+def primDbl (fo : FloatOps) (name : String) (args : List Int) : Option Int :=
+  match name, args with
+  | "-r1.d", [a] => some (fo.neg a)
+  | "(r1.d+r2.d)", [a, b] => some (fo.add a b)
+  | "(r1.d-r2.d)", [a, b] => some (fo.sub a b)
+  | "(r1.d*r2.d)", [a, b] => some (fo.mul a b)
+  | "(r1.d/r2.d)", [a, b] => some (fo.div a b)
+  | "(r1.d<r2.d)", [a, b] => some (C.b2i (cmpFlt fo .lt a b))
+  | "(r1.d>r2.d)", [a, b] => some (C.b2i (cmpFlt fo .gt a b))
+  | "(r1.d<=r2.d)", [a, b] => some (C.b2i (cmpFlt fo .le a b))
+  | "(r1.d>=r2.d)", [a, b] => some (C.b2i (cmpFlt fo .ge a b))
+  | "(fabs((r1.d-r2.d))<DBL_EPSILON)", [a, b] => some (C.b2i (cmpFlt fo .eq a b))
+  | "(fabs((r1.d-r2.d))>=DBL_EPSILON)", [a, b] => some (C.b2i (cmpFlt fo .neq a b))
+  | _, _ => none
+
+/-- primitives on sized strings, by the (normalised) C text the translator found in exec.c -/
 def primPure (name : String) (args : List Int) : Int :=
   match name, args with
-  | "-r1.d", [a] => fltToVm (-(vmToFlt a))
-  | "(r1.d+r2.d)", [a, b] => fltToVm (vmToFlt a + vmToFlt b)
-  | "(r1.d-r2.d)", [a, b] => fltToVm (vmToFlt a - vmToFlt b)
-  | "(r1.d*r2.d)", [a, b] => fltToVm (vmToFlt a * vmToFlt b)
-  | "(r1.d/r2.d)", [a, b] => fltToVm (vmToFlt a / vmToFlt b)
-  | "(r1.d<r2.d)", [a, b] => C.b2i (cmpFlt .lt (vmToFlt a) (vmToFlt b))
-  | "(r1.d>r2.d)", [a, b] => C.b2i (cmpFlt .gt (vmToFlt a) (vmToFlt b))
-  | "(r1.d<=r2.d)", [a, b] => C.b2i (cmpFlt .le (vmToFlt a) (vmToFlt b))
-  | "(r1.d>=r2.d)", [a, b] => C.b2i (cmpFlt .ge (vmToFlt a) (vmToFlt b))
-  | "(fabs((r1.d-r2.d))<DBL_EPSILON)", [a, b] => C.b2i (cmpFlt .eq (vmToFlt a) (vmToFlt b))
-  | "(fabs((r1.d-r2.d))>=DBL_EPSILON)", [a, b] => C.b2i (cmpFlt .neq (vmToFlt a) (vmToFlt b))
   | "(r1.ss->length>0)", [a] => C.b2i (!(decSS a).isEmpty)
   | "(ss_compare(r1.ss,r2.ss)==0)", [a, b] => C.b2i (cmpStr .eq (decSS a) (decSS b))
   | "(ss_compare(r1.ss,r2.ss)!=0)", [a, b] => C.b2i (cmpStr .neq (decSS a) (decSS b))
@@ -109,14 +112,17 @@ def primPure (name : String) (args : List Int) : Int :=
   | "(ss_icompare(r1.ss,r2.ss)==0)", [a, b] => C.b2i (strOp .iequals (decSS a) (decSS b))
   | _, _ => C.UNDEF
 
-/-- all primitives of the generated opcodes: the intN/uintN readers, then `primPure` -/
-def prim (blocks : List (Nat × Bytes)) (name : String) (args : List Int) : Int :=
+/-- all primitives of the generated opcodes: the intN/uintN readers, the double operations, then `primPure` -/
+def prim (fo : FloatOps) (blocks : List (Nat × Bytes)) (name : String) (args : List Int) : Int :=
   match readerOf name with
   | some (sz, sg, be) =>
     match args with
     | [a] => readPrim blocks sz sg be a
     | _ => C.UNDEF
-  | none => primPure name args
+  | none =>
+    match primDbl fo name args with
+    | some v => v
+    | none => primPure name args
 
 /-! ### instructions and state -/
 
@@ -223,12 +229,12 @@ def step (env : Env) (i : Instr) (s : St) : Option St :=
   | .push v, st => next (v :: st)
   | .pushU, st => next (C.UNDEF :: st)
   | .pop, _ :: st => next st
-  | .un op, a :: st => next (vmUn (prim env.blocks) op a :: st)
-  | .bin op, b :: a :: st => next (vmBin (prim env.blocks) op a b :: st)
+  | .un op, a :: st => next (vmUn (prim env.fops env.blocks) op a :: st)
+  | .bin op, b :: a :: st => next (vmBin (prim env.fops env.blocks) op a b :: st)
   | .intToDbl k, st =>
       if k = 0 ∨ k > st.length then none else
       let v := st.getD (k - 1) 0
-      next (st.set (k - 1) (if isU v then C.UNDEF else fltToVm (Float.ofInt v)))
+      next (st.set (k - 1) (if isU v then C.UNDEF else env.fops.ofInt v))
   | .filesize, st => next (env.filesize :: st)
   | .extVal name, st => next (toVm (lookupExt env name) :: st)
   | .undefVal, st => next (C.UNDEF :: st)
